@@ -302,7 +302,8 @@ def build_graph(ctx, source_kwargs):
         kw = {}
         entry = cont = False
         if op == 'source':
-            s = Stream(**source_kwargs)
+            # 'unbound': a plain Stream() that gets loop and mode from the pipeline it is joined into
+            s = Stream() if n.get('unbound') else Stream(**source_kwargs)
             entry = True
         elif op == 'external':        # a stream built by the family harness (Kafka source, Dask segment)
             s = ctx.external[nid]
